@@ -149,6 +149,16 @@ theorem play_url_leak_free (l p : Bool) (env : List Res) (fault : Fault)
 
 example : (run (some (0, .cancel)) (playUrl true true) (start [.acquired])).2 ≠ .ok := by decide
 
+/-- A failure that comes from the call's own ARGUMENTS (play_url parses `position` with int():
+    "1:30", None, … raise) is a fault point like any other as long as it is evaluated inside
+    the try: everything is released.  Evaluated between takeover() and the try it is not
+    (the static discipline rejects that placement, and the takeover stays held). -/
+theorem play_url_argument_failure_leak_free :
+    (∀ l p, Bracketed true (playUrlArgs false l p) = true) ∧
+    (∀ l p, Bracketed true (playUrlArgs true l p) = false) ∧
+    (run (some (0, .fail)) (playUrlArgs true false false) (start [])).1.ledger = [.takeover 3] := by
+  decide +kernel
+
 /-! ### refusal -/
 
 /-- A call refused (InvalidStateError from acquire()/takeover()) leaves everything that is
